@@ -186,7 +186,16 @@ pub fn hook(phase: u8, ev: &Event) -> Option<usize> {
     if ev.kind == verif::BOX { return None; }
     if ev.kind == verif::FREE {
         let mut g = S.lock().unwrap();
-        if let Some(s) = g.as_mut() { s.freed += 1; }
+        if let Some(s) = g.as_mut() {
+            s.freed += 1;
+            // the release of the storage must happen-after everything every other thread did to the buffer
+            // (its index/flag/counter operations and its slot accesses): otherwise the deallocation races with them
+            for u in 0..NT {
+                if u != t && s.vc[u][u] > s.vc[t][u] {
+                    s.uaf.push(format!("T{t} releases the buffer without having synchronised with T{u}'s last operations on it (T{u} is at clock {}, T{t} only knows T{u} up to {}): the deallocation races with them", s.vc[u][u], s.vc[t][u]));
+                }
+            }
+        }
         return None;
     }
     if phase == 0 {
